@@ -194,7 +194,15 @@ fn fresh_128(top_bank: u8) -> Emu {
 /// Some encodings under test write the 128K paging latch themselves (OUT (n),A / OUT (C),r / OUTI
 /// with a port that decodes to it): the machine is put back into the paging state the reference
 /// assumes before the next step.
+thread_local! {
+    /// set while a probe runs on a machine whose paging is locked: nothing can change it any more
+    static PAGING_LOCKED: std::cell::Cell<bool> = std::cell::Cell::new(false);
+}
+
 fn restore_paging(e: &mut Emu, m128: bool, top_bank: u8) {
+    if PAGING_LOCKED.with(|l| l.get()) {
+        return;
+    }
     if m128 {
         let p = e.verif_paging();
         if p.0 != top_bank || !p.1 {
@@ -541,6 +549,7 @@ pub fn run(tier: Tier, seed: u64, replay: Option<String>) -> i32 {
         (0, 0xDB, 3), // IN A,(n): port high byte from A
         (2, 0xB0, 3), // LDIR: DE writes + delays
     ];
+    let tb128_layer1 = tset_boundary(&ULA128, quick);
     par_for_with(probes.len() * 8, 1, mk_worker, |w, i| {
         let (kind, op, role) = probes[i / 8];
         let bank = (i % 8) as u8;
@@ -551,6 +560,20 @@ pub fn run(tier: Tier, seed: u64, replay: Option<String>) -> i32 {
             // the probed role lives at C0xx+, all other roles at 90xx (uncontended)
             let p = Placement { bits: 1 << role, cont_base: 0xC8, unc_base: 0x90 };
             evals += sweep(&ctx, &mut w.e128, true, bank, kind, op, &p, &v, &ts128, &mut outcomes);
+        }
+        // the same probes on a machine that locked paging on this bank and then received a paging
+        // write for a bank of the other contention class: the write is ignored, so contention must
+        // still be that of the locked bank
+        {
+            let mut e = fresh_128(0);
+            rig::cpu_out(&mut e, 0x8000, 0x7FFD, 0x20 | bank);
+            rig::cpu_out(&mut e, 0x8000, 0x7FFD, bank ^ 1);
+            PAGING_LOCKED.with(|l| l.set(true));
+            for v in [Variant { f: 0, counter: 0, odd_port: false }, Variant { f: 0, counter: 0, odd_port: true }] {
+                let p = Placement { bits: 1 << role, cont_base: 0xC8, unc_base: 0x90 };
+                evals += sweep(&ctx, &mut e, true, bank, kind, op, &p, &v, &tb128_layer1, &mut outcomes);
+            }
+            PAGING_LOCKED.with(|l| l.set(false));
         }
         ctx.add_eval(evals);
         ctx.add_states(evals);
@@ -564,7 +587,7 @@ pub fn run(tier: Tier, seed: u64, replay: Option<String>) -> i32 {
     ctx.note("start_t_states_128k", json!(ts128.len()));
     ctx.note("t_coverage", json!(if quick { "complete windows: frame start, first picture line +-, line 96, lines 190-192 edge, frame end" } else { "every T-state of the frame" }));
     ctx.finish(
-        "for every encoding x every timing variant (flags 00/FF x counter variants x port parity; variants with identical reference cycle shape merged) x every contended/uncontended assignment of the address roles the encoding uses (code, nn operand, HL/IX/IY, BC/DE/A as pointer and port high byte, SP, I) x {48K,128K} x every start T of the T set: one single step on the real Emulator (frame clock placed through the hook) and on RefZ80+RefULA; elapsed T must be equal; boundary layer: each address role the encoding uses placed at -3..+2 around every 16K window boundary (4000, 8000, C000 and the FFFF/0000 wrap with contended bank 1 at C000; code straddling 8000/C000) so that an access made one or two bytes off its proper address changes window, over all contention phases at the start and the end of the contended part of a picture line; plus 10 cycle-kind probes with the address at 0xC000 under all eight 128K banks. distinct = distinct (elapsed, phase) outcomes per encoding",
+        "for every encoding x every timing variant (flags 00/FF x counter variants x port parity; variants with identical reference cycle shape merged) x every contended/uncontended assignment of the address roles the encoding uses (code, nn operand, HL/IX/IY, BC/DE/A as pointer and port high byte, SP, I) x {48K,128K} x every start T of the T set: one single step on the real Emulator (frame clock placed through the hook) and on RefZ80+RefULA; elapsed T must be equal; boundary layer: each address role the encoding uses placed at -3..+2 around every 16K window boundary (4000, 8000, C000 and the FFFF/0000 wrap with contended bank 1 at C000; code straddling 8000/C000) so that an access made one or two bytes off its proper address changes window, over all contention phases at the start and the end of the contended part of a picture line; plus 10 cycle-kind probes with the address at 0xC000 under all eight 128K banks, each also on a machine that locked paging on that bank and then received an (ignored) write for a bank of the other contention class. distinct = distinct (elapsed, phase) outcomes per encoding",
         true,
         &["placing the frame clock through verif_set_frame_clocks assumes contention depends on the clock value only (C05 runs whole frames without placing the clock as the control)", "RefULA is the literal formula of the property text"],
     )
